@@ -12,18 +12,21 @@ W=/var/tmp/verif-seedeval-$N
 git -C /repo worktree remove --force $W >/dev/null 2>&1; rm -rf $W
 git -C /repo worktree add --detach -f $W HEAD >/dev/null 2>&1 || { echo "worktree failed"; exit 2; }
 trap 'git -C /repo worktree remove --force "$W" >/dev/null 2>&1; rm -rf "$W"' EXIT
-mkdir -p $W/_seedkit && cp -r /verif/harness/stubs $W/_seedkit/stubs && cp /verif/selftest/seedkit/build_lib.sh $W/_seedkit/
+mkdir -p $W/_seedkit && cp -r /verif/harness/stubs $W/_seedkit/stubs && cp /verif/selftest/seedkit/build_lib.sh /verif/selftest/seedkit/build_lib_xml.sh $W/_seedkit/
 cp $DST/demo.* $W/ 2>/dev/null; mkdir -p $W/_seed && cp $DST/demo.* $W/_seed/ 2>/dev/null
 BUILD=$(python3 -c "import json;print(json.load(open('$DST/meta.json')).get('demo_build_cmd',''))")
 RUN=$(python3 -c "import json;print(json.load(open('$DST/meta.json')).get('demo_run_cmd',''))")
 BUILD=${BUILD//\/tmp\/seed-$N/$W}; RUN=${RUN//\/tmp\/seed-$N/$W}
 needlib=0; echo "$BUILD" | grep -q libmujoco_nox && needlib=1
+needxml=0; echo "$BUILD" | grep -q libmujoco_xml && needxml=1
 cd $W
 run_demo() { ( [ -n "$BUILD" ] && timeout 900 bash -c "$BUILD" >/dev/null 2>&1; timeout 900 bash -c "$RUN" > _demo.out 2>&1; echo $? ); }
 [ $needlib = 1 ] && timeout 1500 _seedkit/build_lib.sh >/dev/null 2>&1
+[ $needxml = 1 ] && timeout 2400 _seedkit/build_lib_xml.sh >/dev/null 2>&1
 rc_clean=$(run_demo); tail -1 _demo.out > _clean.out
 git apply $DST/patch.diff || { echo "patch does not apply to HEAD"; exit 2; }
 [ $needlib = 1 ] && timeout 1500 _seedkit/build_lib.sh >/dev/null 2>&1
+[ $needxml = 1 ] && timeout 2400 _seedkit/build_lib_xml.sh >/dev/null 2>&1
 rc_patched=$(run_demo); tail -1 _demo.out > _patched.out
 tests=$(timeout 900 /venv/bin/python -m pytest -q -p no:cacheprovider --timeout=900 --continue-on-collection-errors test/doc doc 2>&1 | tail -1)
 echo "SEED $N: demo clean rc=$rc_clean ($(cat _clean.out | cut -c1-80)) patched rc=$rc_patched ($(cat _patched.out | cut -c1-80)) tests: $tests"
